@@ -1,6 +1,7 @@
 (* C14 driver: one operation per line on stdin, one result per line on stdout.
      L tag:id:line:col tag:id:line:col ...    linearize (line = -1: sposNone)
      I <string over 's' 't'>                  indentLevel
+     C item*   with  item ::= [ tag:id* | item* ]     wf_block, canonPiled, canonBraced
    Conversions int <-> N only; all logic is the extracted model. *)
 open Linear
 
@@ -21,6 +22,33 @@ let string_of_tok t =
   let (l, c) = match t.tpos with None -> (-1, 0) | Some (l, c) -> (int_of_n l, int_of_n c) in
   Printf.sprintf "%d:%d:%d:%d" (int_of_n t.ttag) (int_of_n t.tval) l c
 
+let atom_of_string s =
+  match String.split_on_char ':' s with
+  | [a; b] -> (n_of_int (int_of_string a), n_of_int (int_of_string b))
+  | _ -> failwith ("bad atom " ^ s)
+
+(* item ::= "[" atom* "|" item* "]" *)
+let rec parse_items ws =
+  match ws with
+  | "[" :: rest ->
+      let (it, rest') = parse_item rest in
+      let (its, rest'') = parse_items rest' in
+      (it :: its, rest'')
+  | _ -> ([], ws)
+and parse_item ws =
+  let rec atoms acc ws = match ws with
+    | "|" :: rest -> (List.rev acc, rest)
+    | w :: rest -> atoms (atom_of_string w :: acc) rest
+    | [] -> failwith "unterminated header" in
+  let (h, rest) = atoms [] ws in
+  let (body, rest') = parse_items rest in
+  match rest' with
+  | "]" :: rest'' -> (Item (h, body), rest'')
+  | _ -> failwith "missing ]"
+
+let string_of_atoms l =
+  String.concat " " (List.map (fun (a, b) -> Printf.sprintf "%d:%d" (int_of_n a) (int_of_n b)) l)
+
 let () =
   try
     while true do
@@ -31,6 +59,12 @@ let () =
         (match linearize (List.map tok_of_string ws) with
          | None -> print_string "NONE"
          | Some out -> print_string (String.concat " " ("OK" :: List.map string_of_tok out)));
+        print_newline ()
+      end else if n >= 1 && line.[0] = 'C' then begin
+        let ws = List.filter (fun s -> s <> "") (String.split_on_char ' ' (String.sub line 1 (n - 1))) in
+        let (b, _) = parse_items ws in
+        print_string ((if wf_block b then "WF" else "NOTWF") ^ " P " ^ string_of_atoms (canonPiled b)
+                      ^ " B " ^ string_of_atoms (canonBraced b));
         print_newline ()
       end else if n >= 1 && line.[0] = 'I' then begin
         let ws = ref [] in
